@@ -1137,3 +1137,86 @@ Proof.
   specialize (Hf s len eq_refl). destruct (len <=? nth s (rc_free c) 0) eqn:E; [discriminate|].
   apply Z.leb_gt in E. lia.
 Qed.
+
+(* ------------------------------------------------------------------ *)
+(** * Stream credit follows the buffer *)
+
+(** the peer's remaining stream window never exceeds the free space of the buffer *)
+Definition sb_inv (announced : Z) (b : sbuf) : Prop :=
+  0 <= sb_owed b <= announced /\ announced - sb_owed b <= sb_free b.
+
+(** what the environment may do: a compliant peer sends within the window it
+    has left; draining frees a non-negative amount *)
+Definition sb_legal (announced : Z) (b : sbuf) (e : sbev) : Prop :=
+  match e with
+  | SData wire => 0 <= wire <= announced - sb_owed b
+  | SDrain n => 0 <= n
+  | SRelease => True
+  end.
+
+Fixpoint sb_legal_run (announced : Z) (b : sbuf) (evs : list sbev) : Prop :=
+  match evs with
+  | [] => True
+  | e :: r => sb_legal announced b e /\ sb_legal_run announced (fst (sb_step announced b e)) r
+  end.
+
+Lemma sb_step_inv announced b e :
+  sb_inv announced b -> sb_legal announced b e -> sb_inv announced (fst (sb_step announced b e)).
+Proof.
+  unfold sb_inv, sb_legal. destruct b as [free owed]. destruct e as [wire|n|]; cbn [sb_step fst sb_free sb_owed].
+  - intros [H1 H2] H. split; lia.
+  - intros [H1 H2] H. split; lia.
+  - intros [H1 H2] _. unfold sb_grant, peer_window. cbn [sb_free sb_owed]. split; lia.
+Qed.
+
+Lemma sb_data_fits announced b wire :
+  sb_inv announced b -> sb_legal announced b (SData wire) -> wire <= sb_free b.
+Proof. unfold sb_inv, sb_legal. intros [H1 H2] H. lia. Qed.
+
+(** every DATA frame of a legal run finds room in the buffer *)
+Fixpoint sb_all_fit (announced : Z) (b : sbuf) (evs : list sbev) : Prop :=
+  match evs with
+  | [] => True
+  | e :: r => match e with SData wire => wire <= sb_free b | _ => True end /\
+              sb_all_fit announced (fst (sb_step announced b e)) r
+  end.
+
+Lemma sb_run_inv announced evs : forall b,
+  sb_inv announced b -> sb_legal_run announced b evs ->
+  sb_inv announced (fst (sb_run announced b evs)) /\ sb_all_fit announced b evs.
+Proof.
+  induction evs as [|e r IH]; intros b I L.
+  - cbn. split; [assumption|exact Logic.I].
+  - cbn [sb_legal_run] in L. destruct L as [Le Lr].
+    pose proof (sb_step_inv announced b e I Le) as I1.
+    cbn [sb_run sb_all_fit]. destruct (sb_step announced b e) as [b1 g] eqn:S. cbn [fst] in *.
+    destruct (IH b1 I1 Lr) as [I2 F2]. destruct (sb_run announced b1 r) as [b2 gs]. cbn [fst] in *.
+    split; [assumption|]. split; [|assumption].
+    destruct e as [wire| |]; try exact Logic.I. exact (sb_data_fits announced b wire I Le).
+Qed.
+
+(** no byte of credit is lost or invented: owed + granted = owed before + received *)
+Definition sb_received (e : sbev) : Z := match e with SData wire => wire | _ => 0 end.
+
+Lemma sb_run_conservation announced evs : forall b b' gs,
+  sb_run announced b evs = (b', gs) ->
+  sb_owed b' + sumz gs = sb_owed b + sumz (map sb_received evs).
+Proof.
+  induction evs as [|e r IH]; intros b b' gs H; cbn [sb_run] in H.
+  - inversion H; subst. cbn. lia.
+  - destruct (sb_step announced b e) as [b1 g] eqn:S. destruct (sb_run announced b1 r) as [b2 gs2] eqn:R.
+    inversion H; subst. specialize (IH _ _ _ R).
+    assert (E : forall a l, sumz (a :: l) = a + sumz l) by reflexivity.
+    cbn [map]. rewrite !E.
+    destruct e as [wire|n|]; cbn [sb_step] in S; inversion S; subst; cbn [sb_owed sb_received] in *; lia.
+Qed.
+
+(** a release leaves the peer either its whole window back, or exactly the free space *)
+Lemma sb_release_maximal announced b :
+  sb_inv announced b ->
+  let b' := fst (sb_step announced b SRelease) in
+  sb_owed b' = 0 \/ announced - sb_owed b' = sb_free b'.
+Proof.
+  unfold sb_inv. destruct b as [free owed]. cbn [sb_step fst sb_free sb_owed]. unfold sb_grant, peer_window. cbn [sb_free sb_owed].
+  intros [H1 H2]. lia.
+Qed.
